@@ -136,6 +136,11 @@ class C30(core.Check):
               stmt={'k': 'view', 'x0': 100, 'y0': 100, 'x1': 400, 'y1': 150, 'screen': True, 'fill': 1, 'border': 2}),
             c(view=[50, 40, 100, 90, True], probe=2,
               stmt={'k': 'view', 'x0': 100, 'y0': 100, 'x1': 150, 'y1': 150, 'screen': False, 'fill': 1, 'border': 2}),
+            # seeded C30e: VIEW while page 0 is active, then SCREEN ,,1,0 (no mode change), then drawing on page 1
+            c(video='ega', screen=7, apage=1, vpage=0, view=[50, 40, 100, 90, True], view_page=2,
+              stmt={'k': 'line', 'x0': 0, 'y0': 0, 'x1': 319, 'y1': 199, 'c': 5, 'shape': 'BF'}),
+            c(video='ega', screen=7, apage=1, vpage=0, view=[50, 40, 100, 90, False], view_page=2,
+              stmt={'k': 'pset', 'x': 200, 'y': 150, 'c': 3}),
             # seeded C30: page kept over a mode change (SCREEN 7,,1,1 : SCREEN 8) - drawing must go to page 1
             c(video='vga', screen=8, hist=[[7, None, 1, 1], [8, None, None, None]],
               stmt={'k': 'line', 'x0': 20, 'y0': 20, 'x1': 40, 'y1': 30, 'c': 5, 'shape': 'BF'}),
@@ -326,6 +331,8 @@ class C30(core.Check):
             case['stmt'] = self.gen_stmt(rng, w, h, vrect, nattr, text)
             if not text and not case.get('hist') and rng.random() < 0.1:
                 case['pcopy'] = True        # PCOPY <other page>, <active page> right before the statement
+            elif not text and not case.get('hist') and case['view'] and rng.random() < 0.35:
+                case['view_page'] = rng.choice([0, 0, 1, 2])    # VIEW while another page is active, then select
             if not text and (case['stmt']['k'] in ('view', 'view0') or rng.random() < 0.15):
                 # a second step of the history: after the statement, flood the whole coordinate range with a filled
                 # box and see (oracle) that exactly the viewport then in force is painted
@@ -492,9 +499,16 @@ class C30(core.Check):
                     s._impl.interpreter.error_num = 0
             if case['view']:
                 v = case['view']
+                vpg = case.get('view_page')
+                if vpg is not None and not hist and npages > 1 and not case.get('pcopy'):
+                    # the VIEW is given while ANOTHER page is active, then the page is selected (no mode change):
+                    # the viewport is not a property of a page (C30e)
+                    ex('SCREEN ,,%d,%d' % ((ap + 1 + vpg) % npages, vp))
                 # VIEW with fill = background so that nothing visible changes
                 ex('VIEW %s(%d,%d)-(%d,%d),%d,%d' % ('SCREEN ' if v[4] else '', v[0], v[1], v[2], v[3], case['bg'],
                                                      case['bg']))
+                if vpg is not None and not hist and npages > 1 and not case.get('pcopy'):
+                    ex('SCREEN ,,%d,%d' % (ap, vp))
             if case['window']:
                 wd = case['window']
                 ex('WINDOW %s(%s,%s)-(%s,%s)' % ('SCREEN ' if wd[4] else '', G.num(wd[0]), G.num(wd[1]), G.num(wd[2]),
